@@ -533,6 +533,8 @@ func patterns(r *lib.Report, tier string, samples *[]interface{}) (int64, int64)
 		eqSpecs = append(eqSpecs, patSpec{"Equal(" + ev.name + ")", func(t string) fpgo.Pattern { return fpgo.InCaseOfEqual(ev.v, eff(t)) },
 			func(v interface{}) bool { return ev.v == v }})
 	}
+	eqSpecs = append(eqSpecs, patSpec{"Regex(^$)", func(t string) fpgo.Pattern { return fpgo.InCaseOfRegex("^$", eff(t)) }, func(v interface{}) bool { s, ok := v.(string); return ok && s == "" }})
+	eqSpecs = append(eqSpecs, patSpec{"Regex(z*)", func(t string) fpgo.Pattern { return fpgo.InCaseOfRegex("z*", eff(t)) }, func(v interface{}) bool { _, ok := v.(string); return ok }})
 	eqSpecs = append(eqSpecs, patSpec{"Regex(invalid)", func(t string) fpgo.Pattern { return fpgo.InCaseOfRegex("a(", eff(t)) }, func(v interface{}) bool { return false }})
 	eqSpecs = append(eqSpecs, specs[6])
 	var eqOrders [][]int
